@@ -23,7 +23,7 @@ structure GenCfg where
   negIndexPanics : Bool := false   -- repaired in /repo (fix: negative slice index …)
   /-- `true` (original emitter): in compare mode the `right == "nil"` interception of a pointer-typed
       struct field runs although the path continues below that field. -/
-  nilInterceptAnyDepth : Bool := true
+  nilInterceptAnyDepth : Bool := false   -- repaired in /repo (fix: Compare with "nil" below a pointer field …)
   /-- `true` (original emitter): for a pointer-typed map value / slice element the nil guard
       (compiler.go:677-680) runs before the `right == "nil"` test, and no such test is emitted at all for
       pointer-to-struct/collection elements: `Compare(==, "nil")` on such an element leaves the result untouched. -/
@@ -101,7 +101,7 @@ deriving Repr, Inhabited
 /-- The configuration that mirrors the tree as it is (flags flip when a `fix:` commit lands). -/
 def GenCfg.repo : GenCfg := {}
 /-- The tree as it was at the pinned commit (1c76ae3), before the `fix:` commits in /repo. -/
-def GenCfg.original : GenCfg := { GenCfg.repo with strAppendsOld := true, negIndexPanics := true, loopRootMapSkipped := true, loopNilKeyPanics := true, nilRootPanics := true, resetNilPtrPanics := true, fallThroughAlways := true }
+def GenCfg.original : GenCfg := { GenCfg.repo with strAppendsOld := true, negIndexPanics := true, loopRootMapSkipped := true, loopNilKeyPanics := true, nilRootPanics := true, resetNilPtrPanics := true, fallThroughAlways := true, nilInterceptAnyDepth := true }
 /-- Every listed defect repaired: the configuration the property theorems are proved for. -/
 def GenCfg.fixed : GenCfg where
   fallThroughAlways := false
